@@ -310,6 +310,7 @@ def liveStatesAndRekeyed : List Nat := liveStates ++ [20]
 
 def vendorId : Bytes := [112, 121, 105, 107, 101, 118, 50, 45, 48, 46, 49]     -- b'pyikev2-0.1'
 
+def hasType (p : Proposal) (ty : Nat) : Bool := p.transforms.any fun t => t.ttype = ty
 def hasDh (p : Proposal) : Bool := p.transforms.any fun t => t.ttype = 4
 def withoutDh (p : Proposal) : Proposal := { p with transforms := p.transforms.filter fun t => t.ttype ≠ 4 }
 
@@ -742,10 +743,13 @@ def negotiateIkeResponse (sl : Slot) (response : Msg) (encrypted rekey : Bool) :
   let x ← getSlot sl
   match sa, x.ext.chosen with
   | p0 :: _, some offer =>
-    if ¬ isSubset p0 offer then HM.raise excNoProposal
+    -- one transform of every type that was offered, each from the offer (the same test as for a CHILD_SA response)
+    if ¬ childResponseOk offer p0 then HM.raise excNoProposal
     modSlot sl fun x => { core := { x.core with peerSpi := if rekey then p0.spi else response.hdr.spiR },
                           ext := { x.ext with chosen := some p0 } }
     popOk                                            -- compute_secret
+    -- `generate_ike_sa_key_material` looks up the PRF, INTEG and ENCR transforms of what the peer returned (StopIteration)
+    if ¬ (hasType p0 2 ∧ hasType p0 3 ∧ hasType p0 1) then HM.raise excPython
     modSlot sl fun x => { x with core := { x.core with keyed := true } }
   | _, _ => HM.raise excPython
 
